@@ -160,6 +160,14 @@ def arr_getitem(ex, st, arr, idx):
         ex.ctx.obligation("no-raise:IndexError", z3.And(idx >= -n, idx < n))
         rows = [L.idx_apply(arr, i) for i in range(n)]
         return ex.select_chain([r if not isinstance(r, SArr) else L.copy(r) for r in rows], idx)
+    if isinstance(idx, tuple) and len(idx) >= 2 and all(isinstance(c, SArr) and c.kind == "i" and c.ndim == 1 for c in idx) \
+            and len(set(c.shape[0] for c in idx)) == 1:
+        # pairwise fancy indexing arr[a, b]: element k is arr[a_k, b_k]
+        n = idx[0].shape[0]
+        items = [arr_getitem(ex, st, arr, tuple(c.flat()[k] for c in idx)) for k in range(n)]
+        if items and isinstance(items[0], SArr):
+            return L.stack(items, 0)
+        return L.mk(items, (n,), arr.kind)
     if isinstance(idx, tuple) and len(idx) >= 1:
         # select chain over every symbolic integer component, left to right
         for pos, comp in enumerate(idx):
@@ -982,6 +990,65 @@ def sp_minimize(ex, st, args, kwargs):
     return SObj("OptimizeResult", {"x": zs, "success": True})
 
 
+def _torchify(a):
+    r = SArr(a.a, a.kind, "torch")
+    return r
+
+
+def t_tensor(ex, st, args, kwargs):
+    a = np_array(ex, st, [args[0]], {"dtype": kwargs.get("dtype")} if kwargs.get("dtype") is not None else {})
+    return _torchify(a)
+
+
+def t_cat(ex, st, args, kwargs):
+    ax = kwargs.get("dim", args[1] if len(args) > 1 else 0)
+    return _torchify(L.concat(_seq_of_arrays(args[0]), axis=ax))
+
+
+def t_stack(ex, st, args, kwargs):
+    ax = kwargs.get("dim", args[1] if len(args) > 1 else 0)
+    return _torchify(L.stack(_seq_of_arrays(args[0]), axis=ax))
+
+
+def t_empty(ex, st, args, kwargs):
+    shp = args[0] if len(args) == 1 else tuple(args)
+    shp = _shape_arg(shp)
+    n = 1
+    for x in shp:
+        n *= x
+    if n != 0:
+        return _torchify(np_empty(ex, st, [shp], {}))
+    return _torchify(L.mk([], shp, "f"))
+
+
+def t_eye(ex, st, args, kwargs):
+    return _torchify(np_eye(ex, st, args, {}))
+
+
+def t_unique(ex, st, args, kwargs):
+    r = concrete_fallback("numpy.unique", [args[0]], {})
+    if r is _SYM:
+        a = L.as_arr(args[0])
+        for x in a.flat():
+            if isz(x) and z3.is_int(x) and V.conc(x) is None:
+                raise _sx().NeedConcreteInt(x)
+        raise Unsupported("torch.unique on symbolic values")
+    return _torchify(r)
+
+
+def t_einsum(ex, st, args, kwargs):
+    spec = args[0]
+    if spec == "ij,ki->kij":
+        E, Vv = L.as_arr(args[1]), L.as_arr(args[2])
+        K, I_ = Vv.shape
+        J = E.shape[1]
+        out = [V.mul(E.a[i, j], Vv.a[k, i]) for k in range(K) for i in range(I_) for j in range(J)]
+        return _torchify(L.mk(out, (K, I_, J), "f"))
+    raise Unsupported("einsum " + str(spec))
+
+
+NP.update({"torch.tensor": t_tensor, "torch.cat": t_cat, "torch.stack": t_stack, "torch.empty": t_empty,
+           "torch.eye": t_eye, "torch.unique": t_unique, "torch.einsum": t_einsum})
 NP["scipy.optimize.minimize"] = sp_minimize
 NP["sklearn.metrics.pairwise.euclidean_distances"] = sk_euclidean
 NP["itertools.product"] = it_product
@@ -1095,6 +1162,12 @@ def arr_method(ex, st, a, name, args, kwargs):
         return np_dot(ex, st, [a, args[0]], {})
     if name == "repeat":
         return np_repeat(ex, st, [a] + list(args), kwargs)
+    if name == "to":
+        return a
+    if name == "numpy":
+        return SArr(a.a, a.kind, None)
+    if name == "dim":
+        return a.ndim
     if name == "fill":
         for pos in itertools.product(*[range(s) for s in a.shape]):
             a.a[pos] = L.to_kind(args[0], a.kind)
@@ -1299,7 +1372,9 @@ def do_isinstance(ex, v, t):
             return hasattr(v, "is_set")
     if isinstance(t, sx.LibRef):
         if t.dotted == "numpy.ndarray":
-            return isinstance(v, SArr)
+            return isinstance(v, SArr) and v.origin != "torch"
+        if t.dotted == "torch.Tensor":
+            return isinstance(v, SArr) and v.origin == "torch"
         if hasattr(v, "lib_isinstance"):
             return v.lib_isinstance(t.dotted)
         return False
